@@ -85,13 +85,12 @@ theorem encodeBytes_ok {ops : List Op} {bytes : Array UInt8} (h : encodeBytes op
 
 /-- the number of binary decisions of a successful analysis -/
 theorem analysis_decisions_le {H : Type} (est : Array Nat → List Block → R Params) (mk : Params → Pred H)
-    (hb : ∀ q, PredTight (mk q)) (d : List UInt8) (hd : d.length < 2 ^ 29)
+    (hb : ∀ q, PredTight (mk q)) (d : List UInt8) (hd : d.length < 2 ^ 61)
     (r : StreamResult) (h : decompressStream est mk false d = .ok r)
     (evs : List Ev) (he : encodeOps 0 r.corr = .ok evs) :
     evs.length ≤ 256 * d.length + 197 := by
   obtain ⟨p, params, hdr, body, h1, h2, h3, h4, rfl⟩ := decompressStream_ok h
-  have hl := length_bytesToBits d
-  obtain ⟨hv, hpad⟩ := parse_valid (bytesToBits d) (by omega) p h1
+  obtain ⟨hv, hpad⟩ := parse_valid_unbounded (bytesToBits d) p h1
   have e1 := encodeOps_length_eq (hdr ++ body) 0 (by omega) evs he
   have e2 := writeParams_cost params hdr h3
   have e3 := encStream_cost (mk params) (hb params) p.plain p.blocks p.eofPadding hv hpad body h4
@@ -102,7 +101,7 @@ theorem analysis_decisions_le {H : Type} (est : Array Nat → List Block → R P
 /-- **COMPOSITION** (any estimator, any tight predictor family): the correction bytes of a successful
     analysis of an input below 512 MiB are at most 224 per input byte, plus 202 -/
 theorem corr_size_le_of_tight {H : Type} (est : Array Nat → List Block → R Params) (mk : Params → Pred H)
-    (hb : ∀ q, PredTight (mk q)) (verify : Bool) (d : List UInt8) (hd : d.length < 2 ^ 29)
+    (hb : ∀ q, PredTight (mk q)) (verify : Bool) (d : List UInt8) (hd : d.length < 2 ^ 61)
     (plain : Array Nat) (bytes : Array UInt8) (n : Nat) (q : Params)
     (h : decompressBytes est mk verify d = .ok (plain, bytes, n, q)) :
     bytes.size ≤ 224 * d.length + 202 := by
@@ -115,14 +114,14 @@ theorem corr_size_le_of_tight {H : Type} (est : Array Nat → List Block → R P
 
 /-- **COMPOSITION, the library's stream analysis**: `decompress_deflate_stream` with the modelled
     estimator and the executable predictor -/
-theorem corr_size_le (verify : Bool) (d : List UInt8) (hd : d.length < 2 ^ 29)
+theorem corr_size_le (verify : Bool) (d : List UInt8) (hd : d.length < 2 ^ 61)
     (plain : Array Nat) (bytes : Array UInt8) (n : Nat) (q : Params)
     (h : decompressBytes Est.estimate Chains.pred verify d = .ok (plain, bytes, n, q)) :
     bytes.size ≤ 224 * d.length + 202 :=
   corr_size_le_of_tight Est.estimate Chains.pred chains_pred_tight verify d hd plain bytes n q h
 
 /-- the same for a candidate handed over by the container level -/
-theorem corr_size_le_bytes (verify : Bool) (d : Bytes) (hd : d.length < 2 ^ 29)
+theorem corr_size_le_bytes (verify : Bool) (d : Bytes) (hd : d.length < 2 ^ 61)
     (plain : Array Nat) (bytes : Array UInt8) (n : Nat) (q : Params)
     (h : decompressBytes Est.estimate Chains.pred verify (toU8 d) = .ok (plain, bytes, n, q)) :
     bytes.size ≤ 224 * d.length + 202 := by
@@ -131,7 +130,7 @@ theorem corr_size_le_bytes (verify : Bool) (d : Bytes) (hd : d.length < 2 ^ 29)
   exact this
 
 /-- what the scanner stores: the corrections of an ACCEPTED candidate -/
-theorem lib_corr_size_le (d : Bytes) (hd : d.length < 2 ^ 29) (r : Res)
+theorem lib_corr_size_le (d : Bytes) (hd : d.length < 2 ^ 61) (r : Res)
     (h : libOracle.verified d = .ok r) : r.corr.length ≤ 224 * d.length + 202 := by
   obtain ⟨plain, bytes, q, h1, h2⟩ := libAnalyze_ok d r (verified_analyze _ d r h)
   have := corr_size_le_bytes false d hd plain bytes r.size q h1
